@@ -827,4 +827,4 @@ def construct_builtin(ex, cname: str, pos, kws, kwrest, st: State, node) -> List
     raise Unsupported(f"construction of {cname}")
 
 
-from .loops import b_all, b_any, b_enumerate, b_range  # noqa: E402,F401
+from .loops import b_all, b_any, b_enumerate, b_range, b_zip  # noqa: E402,F401
